@@ -3,6 +3,7 @@ import Mathlib.Tactic.Linarith
 import Mathlib.Tactic.Ring
 import Mathlib.Tactic.FieldSimp
 import Mathlib.Tactic.Positivity
+import Mathlib.Tactic.SplitIfs
 import Mathlib.Data.Rat.Floor
 import Mathlib.Algebra.Order.Floor.Ring
 namespace SyneTune.Dom
@@ -12,16 +13,18 @@ theorem rat_floor_eq' (x : ℚ) : x.floor = ⌊x⌋ := rfl
 
 theorem rhe_cases (x : ℚ) :
     (roundHalfEven x = ⌊x⌋ ∧ x - ⌊x⌋ ≤ 1/2) ∨ (roundHalfEven x = ⌊x⌋ + 1 ∧ 1/2 ≤ x - ⌊x⌋) := by
-  unfold roundHalfEven
-  simp only [rat_floor_eq']
+  have key : roundHalfEven x = (if x - (⌊x⌋ : ℚ) < 1/2 then ⌊x⌋ else if 1/2 < x - (⌊x⌋ : ℚ) then ⌊x⌋ + 1
+      else if ⌊x⌋ % 2 = 0 then ⌊x⌋ else ⌊x⌋ + 1) := rfl
+  rw [key]
   by_cases h1 : x - (⌊x⌋ : ℚ) < 1/2
-  · left; simp [h1]; linarith
-  · by_cases h2 : 1/2 < x - (⌊x⌋ : ℚ)
-    · right; simp [h1, h2]; linarith
-    · have : x - (⌊x⌋ : ℚ) = 1/2 := by linarith
+  · left; rw [if_pos h1]; exact ⟨rfl, le_of_lt h1⟩
+  · rw [if_neg h1]
+    by_cases h2 : 1/2 < x - (⌊x⌋ : ℚ)
+    · right; rw [if_pos h2]; exact ⟨rfl, le_of_lt h2⟩
+    · rw [if_neg h2]
       by_cases h3 : ⌊x⌋ % 2 = 0
-      · left; simp [h1, h2, h3]; linarith
-      · right; simp [h1, h2, h3]; linarith
+      · left; rw [if_pos h3]; exact ⟨rfl, not_lt.mp h2⟩
+      · right; rw [if_neg h3]; exact ⟨rfl, not_lt.mp h1⟩
 
 theorem rhe_int (k : ℤ) : roundHalfEven (k : ℚ) = k := by
   rcases rhe_cases (k : ℚ) with ⟨h, _⟩ | ⟨h, h2⟩
